@@ -331,7 +331,9 @@ PROPS["C14"] = dict(
          "error variant and elapsed time is judged (0: would-block at once; T: timeout/would-block within [T, T+2s]; -1: no error while observed), "
          "the number accepted before the first refusal must stay below 2*SNDHWM+2*RCVHWM+2*batch+transport+16, then the peer drains and the C01 "
          "oracle checks received == accepted and that no refused message ever shows up. (unblock) with -1 a blocked send must complete once the "
-         "peer reads. (recv side) recv/recv_multipart on an empty queue for RCVTIMEO in {0,20,100,500,-1} on PULL/SUB/DEALER/ROUTER/REP/REQ. "
+         "peer reads. (recv side) recv/recv_multipart on an empty queue for RCVTIMEO in {0,20,100,500,-1} on PULL/SUB/DEALER/ROUTER/REP/REQ; the same with "
+         "RCVTIMEO 300 / 150 ms on ROUTER/PULL/DEALER/SUB/REP while silent peers connect (half of them disconnecting again) every 100 / 40 ms "
+         "over tcp/ipc: the call must still give up after RCVTIMEO, not when the churn ends. "
          "distinct = (pair, transport, HWM, timeout). (plateau) PUSH/DEALER/ROUTER producers with SNDTIMEO=0 retrying every 2 ms for 4 s against a peer that never reads, 64 KiB messages over tcp/ipc, HWM 10 (thorough: 1, 100), with HEARTBEAT_IVL=100 ms on neither / the receiver / the sender / both: the producer must have been refused, and at most 2 messages may be accepted in the second 2 s - a queue that is still admitting then is growing without bound.",
     assumptions=["generous time bounds (T+2 s late, 15 ms early tolerance); the -1 case is observed for 3 s (quick) / 35 s (thorough)",
                  "kernel buffering is limited with SNDBUF/RCVBUF=32 KiB and counted as 8 messages of 64 KiB"],
